@@ -363,6 +363,136 @@ pub open spec fn rest_of(m: Seq<(Value, Value)>) -> Seq<(Label, Value)>
         }
     }
 }
+// ---- result relations: the decoded value is exactly what the wire says, at every nesting level
+pub open spec fn crit_res(c: Seq<RegisteredLabel<iana::HeaderParameter>>, v: Value) -> bool {
+    arr_of(v).len() == c.len() && forall |j: int| 0 <= j < c.len() ==> reg_of::<iana::HeaderParameter>(#[trigger] arr_of(v)[j]) == Some(c[j])
+}
+/// typed fields other than the counter signatures, and the extras, for the first n pairs of m
+pub open spec fn hdr_flat_ok(h: Header, m: Seq<(Value, Value)>, n: int) -> bool {
+    (forall |i: int| 0 <= i < n && #[trigger] label_of(m[i].0) == Some(Label::Int(1)) ==> (h.alg is Some && h.alg == regp_of::<iana::Algorithm>(m[i].1)))
+    && (!has_label(m, n, Label::Int(1)) ==> h.alg is None)
+    && (forall |i: int| 0 <= i < n && #[trigger] label_of(m[i].0) == Some(Label::Int(2)) ==> crit_res(h.crit@, m[i].1))
+    && (!has_label(m, n, Label::Int(2)) ==> h.crit@.len() == 0)
+    && (forall |i: int| 0 <= i < n && #[trigger] label_of(m[i].0) == Some(Label::Int(3)) ==> (h.content_type is Some && h.content_type == reg_of::<iana::CoapContentFormat>(m[i].1)))
+    && (!has_label(m, n, Label::Int(3)) ==> h.content_type is None)
+    && (forall |i: int| 0 <= i < n && #[trigger] label_of(m[i].0) == Some(Label::Int(4)) ==> m[i].1 == Value::Bytes(h.key_id))
+    && (!has_label(m, n, Label::Int(4)) ==> h.key_id@.len() == 0)
+    && (forall |i: int| 0 <= i < n && #[trigger] label_of(m[i].0) == Some(Label::Int(5)) ==> m[i].1 == Value::Bytes(h.iv))
+    && (!has_label(m, n, Label::Int(5)) ==> h.iv@.len() == 0)
+    && (forall |i: int| 0 <= i < n && #[trigger] label_of(m[i].0) == Some(Label::Int(6)) ==> m[i].1 == Value::Bytes(h.partial_iv))
+    && (!has_label(m, n, Label::Int(6)) ==> h.partial_iv@.len() == 0)
+    && h.rest@ == rest_of(m.subrange(0, n))
+}
+pub open spec fn hdr_res(v: Value, d: nat, h: Header) -> bool
+    decreases max_nest() - d, v, 0nat
+{
+    v matches Value::Map(m) && hdr_flat_ok(h, m@, m@.len() as int)
+    && (forall |i: int| 0 <= i < m@.len() && #[trigger] label_of(m@[i].0) == Some(Label::Int(7)) ==> csigs_res(m@[i].1, d, h.counter_signatures@))
+    && (!has_label(m@, m@.len() as int, Label::Int(7)) ==> h.counter_signatures@.len() == 0)
+}
+pub open spec fn csigs_res(v: Value, d: nat, sigs: Seq<CoseSignature>) -> bool
+    decreases max_nest() - d, v, 8nat
+{
+    v matches Value::Array(a) && a@.len() > 0
+    && (a@[0] is Bytes ==> (sigs.len() == 1 && sig_res(v, d, sigs[0])))
+    && (!(a@[0] is Bytes) ==> (sigs.len() == a@.len() && forall |j: int| 0 <= j < a@.len() ==> sig_res(#[trigger] a@[j], d, sigs[j])))
+}
+pub open spec fn sig_res(v: Value, d: nat, s: CoseSignature) -> bool
+    decreases max_nest() - d, v, 7nat
+{
+    v matches Value::Array(a) && a@.len() == 3 && prot_res(a@[0], d, s.protected) && hdr_res(a@[1], d, s.unprotected) && a@[2] == Value::Bytes(s.signature)
+}
+pub open spec fn prot_res(v: Value, d: nat, p: ProtectedHeader) -> bool
+    decreases max_nest() - d, v, 0nat
+{
+    v matches Value::Bytes(b) && p.original_data == Some(b)
+    && (if b@.len() == 0 { hdr_is_empty(p.header) } else { d < max_nest() && (parse_all(b@) matches Some(v2) && hdr_res(v2, d + 1, p.header)) })
+}
+// ---- loop invariant vocabulary for Header::from_cbor_value_nested
+pub open spec fn hdr_prefix_ok(v: Value, n: int, d: nat) -> bool {
+    forall |i: int| 0 <= i < n ==> hdr_pair_ok(#[trigger] map_of(v)[i].0, map_of(v)[i].1, d)
+}
+pub open spec fn hdr_inv(h: Header, v: Value, n: int, d: nat) -> bool {
+    hdr_flat_ok(h, map_of(v), n)
+    && (forall |i: int| 0 <= i < n && #[trigger] label_of(map_of(v)[i].0) == Some(Label::Int(7)) ==> csigs_res(map_of(v)[i].1, d, h.counter_signatures@))
+    && (!has_label(map_of(v), n, Label::Int(7)) ==> h.counter_signatures@.len() == 0)
+}
+/// what one loop iteration does to the header being built, for the pair (k, v)
+pub open spec fn hdr_upd_ok(hp: Header, h: Header, k: Value, v: Value, d: nat) -> bool {
+    label_of(k) matches Some(l) && (
+        if l == Label::Int(1) { h == (Header { alg: h.alg, ..hp }) && h.alg is Some && h.alg == regp_of::<iana::Algorithm>(v) }
+        else if l == Label::Int(2) { h == (Header { crit: h.crit, ..hp }) && crit_res(h.crit@, v) }
+        else if l == Label::Int(3) { h == (Header { content_type: h.content_type, ..hp }) && h.content_type is Some && h.content_type == reg_of::<iana::CoapContentFormat>(v) }
+        else if l == Label::Int(4) { h == (Header { key_id: h.key_id, ..hp }) && v == Value::Bytes(h.key_id) }
+        else if l == Label::Int(5) { h == (Header { iv: h.iv, ..hp }) && v == Value::Bytes(h.iv) }
+        else if l == Label::Int(6) { h == (Header { partial_iv: h.partial_iv, ..hp }) && v == Value::Bytes(h.partial_iv) }
+        else if l == Label::Int(7) { h == (Header { counter_signatures: h.counter_signatures, ..hp }) && csigs_res(v, d, h.counter_signatures@) }
+        else { h == (Header { rest: h.rest, ..hp }) && h.rest@ == hp.rest@.push((l, v)) })
+}
+pub proof fn lemma_hdr_inv_init(h: Header, v: Value, d: nat)
+    requires hdr_is_empty(h),
+    ensures hdr_inv(h, v, 0, d),
+{
+    assert(map_of(v).subrange(0, 0) =~= Seq::<(Value, Value)>::empty());
+    assert(rest_of(map_of(v).subrange(0, 0)) =~= Seq::<(Label, Value)>::empty());
+    assert(h.rest@ =~= Seq::<(Label, Value)>::empty());
+}
+pub proof fn lemma_absent_fields(h: Header, v: Value, n: int, d: nat, l: Label)
+    requires hdr_inv(h, v, n, d), !has_label(map_of(v), n, l),
+    ensures l == Label::Int(2) ==> h.crit@.len() == 0, l == Label::Int(7) ==> h.counter_signatures@.len() == 0,
+{}
+pub proof fn lemma_hdr_inv_step(hp: Header, h: Header, v: Value, n: int, d: nat)
+    requires
+        0 <= n < map_of(v).len(),
+        hdr_inv(hp, v, n, d),
+        label_of(map_of(v)[n].0) matches Some(l) && !has_label(map_of(v), n, l),
+        hdr_upd_ok(hp, h, map_of(v)[n].0, map_of(v)[n].1, d),
+    ensures hdr_inv(h, v, n + 1, d),
+{
+    let m = map_of(v);
+    let l = label_of(m[n].0)->0;
+    assert(m.subrange(0, n + 1).drop_last() =~= m.subrange(0, n));
+    assert(m.subrange(0, n + 1).last() == m[n]);
+    assert forall |x: Label| has_label(m, n + 1, x) <==> (has_label(m, n, x) || x == l) by {
+        if has_label(m, n + 1, x) { let i = choose |i: int| 0 <= i < n + 1 && #[trigger] label_of(m[i].0) == Some(x); if i < n { assert(has_label(m, n, x)); } }
+        if has_label(m, n, x) { let i = choose |i: int| 0 <= i < n && #[trigger] label_of(m[i].0) == Some(x); assert(has_label(m, n + 1, x)); }
+        if x == l { assert(has_label(m, n + 1, x)); }
+    }
+    assert forall |i: int| 0 <= i < n implies #[trigger] label_of(m[i].0) != Some(l) by {
+        if label_of(m[i].0) == Some(l) { assert(has_label(m, n, l)); }
+    }
+}
+pub proof fn lemma_iv_both(h: Header, v: Value, n: int, d: nat)
+    requires v is Map, 0 <= n <= map_of(v).len(), hdr_inv(h, v, n, d), h.iv@.len() > 0, h.partial_iv@.len() > 0,
+    ensures !hdr_ok(v, d),
+{
+    let m = map_of(v);
+    assert(has_label(m, n, Label::Int(5)));
+    assert(has_label(m, n, Label::Int(6)));
+    let i5 = choose |i: int| 0 <= i < n && #[trigger] label_of(m[i].0) == Some(Label::Int(5));
+    let i6 = choose |i: int| 0 <= i < n && #[trigger] label_of(m[i].0) == Some(Label::Int(6));
+    assert(has_label(m, m.len() as int, Label::Int(5)));
+    assert(has_label(m, m.len() as int, Label::Int(6)));
+}
+pub proof fn lemma_hdr_final(h: Header, v: Value, d: nat)
+    requires
+        v is Map,
+        hdr_prefix_ok(v, map_of(v).len() as int, d),
+        hdr_labels_distinct(map_of(v).subrange(0, map_of(v).len() as int)),
+        hdr_inv(h, v, map_of(v).len() as int, d),
+        !(h.iv@.len() > 0 && h.partial_iv@.len() > 0),
+    ensures hdr_ok(v, d), hdr_res(v, d, h),
+{
+    let m = map_of(v);
+    assert(m.subrange(0, m.len() as int) =~= m);
+    if has_label(m, m.len() as int, Label::Int(5)) && has_label(m, m.len() as int, Label::Int(6)) {
+        let i5 = choose |i: int| 0 <= i < m.len() && #[trigger] label_of(m[i].0) == Some(Label::Int(5));
+        let i6 = choose |i: int| 0 <= i < m.len() && #[trigger] label_of(m[i].0) == Some(Label::Int(6));
+        assert(hdr_pair_ok(m[i5].0, m[i5].1, d));
+        assert(hdr_pair_ok(m[i6].0, m[i6].1, d));
+        assert(false);
+    }
+}
 »
 
 /// Maximum nesting of protected headers within counter signatures within headers.
@@ -374,33 +504,35 @@ impl Header {«
     pub(crate) fn from_cbor_value_nested(value: Value, depth: usize) ->« (r:» Result<Self>«)
         ensures
             r is Ok <==> hdr_ok(value, depth as nat),
-            r matches Ok(h) ==> (value matches Value::Map(mv) && h.rest@ == rest_of(mv@)),
+            r matches Ok(h) ==> hdr_res(value, depth as nat, h),
         decreases max_nest() - depth, value, 5nat» {«
         let ghost val0 = value;
-        broadcast use axiom_question_mark_uses_from;
-        broadcast use vstd::std_specs::btree::group_btree_axioms;
-        broadcast use axiom_derived_clone_label;
-        proof { lemma_label_obeys_cmp(); }»
+        let ghost d = depth as nat;
+        broadcast use axiom_question_mark_uses_from;»
         let m = value.try_as_map()?;«
         let ghost ms = m@;»
         let mut headers = Self::default();
-        let mut seen = BTreeSet::new();
+        let mut seen = BTreeSet::new();«
+        proof { lemma_label_obeys_cmp(); lemma_hdr_inv_init(headers, val0, d); }»
         for (l, value) in« it:» m.into_iter()«
             invariant
+                val0 is Map, map_of(val0) == ms, ms == m@, d == depth as nat,
+                vstd::laws_cmp::obeys_cmp::<Label>(),
                 0 <= it.index@ <= ms.len(),
-                forall |i: int| 0 <= i < it.index@ ==> #[trigger] hdr_pair_ok(ms[i].0, ms[i].1, depth as nat),
+                hdr_prefix_ok(val0, it.index@, d),
                 hdr_labels_distinct(ms.subrange(0, it.index@)),
-                forall |x: Label| seen@.contains(x) <==> exists |i: int| 0 <= i < it.index@ && #[trigger] label_of(ms[i].0) == Some(x),
-                headers.rest@ == rest_of(ms.subrange(0, it.index@)),
-                headers.iv@.len() > 0 <==> has_label(ms, it.index@, Label::Int(5)),
-                headers.partial_iv@.len() > 0 <==> has_label(ms, it.index@, Label::Int(6)),
+                forall |x: Label| seen@.contains(x) <==> has_label(ms, it.index@, x),
+                hdr_inv(headers, val0, it.index@, d),
                 !(headers.iv@.len() > 0 && headers.partial_iv@.len() > 0),» {«
+            broadcast use axiom_question_mark_uses_from;
+            broadcast use vstd::std_specs::btree::group_btree_axioms;
+            broadcast use axiom_derived_clone_label;
             let ghost n = it.index@;
             let ghost v0 = value;
             let ghost hp = headers;
             proof {
                 assert(l == ms[n].0 && value == ms[n].1);
-                assert(hdr_ok(val0, depth as nat) ==> hdr_pair_ok(ms[n].0, ms[n].1, depth as nat));
+                assert(hdr_ok(val0, d) ==> hdr_pair_ok(ms[n].0, ms[n].1, d));
             }»
             // The `ciborium` CBOR library does not police duplicate map keys.
             // RFC 8152 section 14 requires that COSE does police duplicates, so do it here.
@@ -426,12 +558,17 @@ impl Header {«
                                 "non-empty array",
                             ));
                         }«
-                        let ghost aa = a@;»
+                        let ghost aa = a@;
+                        proof { assert(hp.crit@.len() == 0) by { lemma_absent_fields(hp, val0, n, d, label); } }»
                         for v in« it2:» a«
                             invariant
-                                0 <= it2.index@ <= aa.len(),
-                                forall |j: int| 0 <= j < it2.index@ ==> (#[trigger] reg_of::<iana::HeaderParameter>(aa[j])) is Some,
-                                headers.rest == hp.rest, headers.iv == hp.iv, headers.partial_iv == hp.partial_iv,» {«
+                                d == depth as nat,
+                                0 <= it2.index@ <= aa.len(), aa == a@, v0 == Value::Array(a),
+                                hdr_ok(val0, d) ==> crit_ok(v0),
+                                forall |j: int| 0 <= j < it2.index@ ==> (#[trigger] reg_of::<iana::HeaderParameter>(aa[j])) == Some(headers.crit@[j]),
+                                headers.crit@.len() == it2.index@,
+                                headers == (Header { crit: headers.crit, ..hp }),» {«
+                            broadcast use axiom_question_mark_uses_from;
                             proof {
                                 assert(v == aa[it2.index@]);
                                 assert(crit_ok(v0) ==> reg_of::<iana::HeaderParameter>(aa[it2.index@]) is Some);
@@ -440,7 +577,7 @@ impl Header {«
                                 RegisteredLabel::<iana::HeaderParameter>::from_cbor_value(v)?,
                             );
                         }«
-                        proof { assert(crit_ok(v0)); }»
+                        proof { assert(crit_ok(v0)); assert(crit_res(headers.crit@, v0)); }»
                     }
                     v => return cbor_type_error(&v, "array value"),
                 },
@@ -488,7 +625,8 @@ impl Header {«
                             "non-empty sig array",
                         ));
                     }«
-                    let ghost sa = sig_or_sigs@;»
+                    let ghost sa = sig_or_sigs@;
+                    proof { assert(hp.counter_signatures@.len() == 0) by { lemma_absent_fields(hp, val0, n, d, label); } }»
                     // The encoding of counter signature[s] is pesky:
                     // - a single counter signature is encoded as `COSE_Signature` (a 3-tuple)
                     // - multiple counter signatures are encoded as `[+ COSE_Signature]`
@@ -496,6 +634,7 @@ impl Header {«
                     // Determine which is which by looking at the first entry of the array:
                     // - If it's a bstr, sig_or_sigs is a single signature.
                     // - If it's an array, sig_or_sigs is an array of signatures
+                    «proof { lemma_map_elem_decreases(val0, n); assert(v0 == Value::Array(sig_or_sigs)); }»
                     match &sig_or_sigs[0] {
                         Value::Bytes(_) => headers
                             .counter_signatures
@@ -506,12 +645,18 @@ impl Header {«
                         Value::Array(_) => {
                             for sig in« it3:» sig_or_sigs.into_iter()«
                                 invariant
-                                    0 <= it3.index@ <= sa.len(),
-                                    forall |j: int| 0 <= j < it3.index@ ==> sig_ok(#[trigger] sa[j], depth as nat),
-                                    headers.rest == hp.rest, headers.iv == hp.iv, headers.partial_iv == hp.partial_iv,» {«
+                                    0 <= it3.index@ <= sa.len(), sa == sig_or_sigs@, v0 == Value::Array(sig_or_sigs), d == depth as nat,
+                                    val0 is Map, map_of(val0) == ms, 0 <= n < ms.len(), v0 == ms[n].1,
+                                    hdr_ok(val0, d) ==> csig_ok(v0, d),
+                                    sa.len() > 0, sa[0] is Array,
+                                    forall |j: int| 0 <= j < it3.index@ ==> sig_ok(#[trigger] sa[j], d) && sig_res(sa[j], d, headers.counter_signatures@[j]),
+                                    headers.counter_signatures@.len() == it3.index@,
+                                    headers == (Header { counter_signatures: headers.counter_signatures, ..hp }),» {«
+                                broadcast use axiom_question_mark_uses_from;
                                 proof {
+                                    lemma_map_elem_decreases(val0, n); lemma_arr_elem_decreases(v0, it3.index@);
                                     assert(sig == sa[it3.index@]);
-                                    assert(csig_ok(v0, depth as nat) ==> sig_ok(sa[it3.index@], depth as nat));
+                                    assert(csig_ok(v0, d) ==> sig_ok(sa[it3.index@], d));
                                 }»
                                 headers
                                     .counter_signatures
@@ -520,40 +665,36 @@ impl Header {«
                         }
                         v => return cbor_type_error(v, "array or bstr value"),
                     }«
-                    proof { assert(csig_ok(v0, depth as nat)); }»
+                    proof { assert(csig_ok(v0, d)); assert(csigs_res(v0, d, headers.counter_signatures@)); }»
                 }
 
                 label => headers.rest.push((label, value)),
             }«
             proof {
-                assert(hdr_pair_ok(ms[n].0, ms[n].1, depth as nat));
+                assert(hdr_pair_ok(ms[n].0, ms[n].1, d));
+                lemma_hdr_inv_step(hp, headers, val0, n, d);
                 let s1 = ms.subrange(0, n + 1);
-                assert(s1.drop_last() =~= ms.subrange(0, n));
-                assert(s1.last() == ms[n]);
                 assert forall |i: int, j: int| 0 <= i < j < s1.len() implies #[trigger] label_of(s1[i].0) != #[trigger] label_of(s1[j].0) by {
                     if j < n { assert(label_of(ms.subrange(0, n)[i].0) != label_of(ms.subrange(0, n)[j].0)); }
-                    else { if label_of(ms[i].0) == Some(label) { assert(false); } }
+                    else { if label_of(ms[i].0) == Some(label) { assert(has_label(ms, n, label)); assert(false); } }
                 }
-                assert(has_label(ms, n + 1, Label::Int(5)) <==> (has_label(ms, n, Label::Int(5)) || label == Label::Int(5)));
-                assert(has_label(ms, n + 1, Label::Int(6)) <==> (has_label(ms, n, Label::Int(6)) || label == Label::Int(6)));
+                assert forall |x: Label| seen@.contains(x) <==> has_label(ms, n + 1, x) by {
+                    if has_label(ms, n + 1, x) { let i = choose |i: int| 0 <= i < n + 1 && #[trigger] label_of(ms[i].0) == Some(x); if i < n { assert(has_label(ms, n, x)); } }
+                    if has_label(ms, n, x) { let i = choose |i: int| 0 <= i < n && #[trigger] label_of(ms[i].0) == Some(x); assert(has_label(ms, n + 1, x)); }
+                    if x == label { assert(has_label(ms, n + 1, x)); }
+                }
             }»
             // RFC 8152 section 3.1: "The 'Initialization Vector' and 'Partial Initialization
             // Vector' parameters MUST NOT both be present in the same security layer."
             if !headers.iv.is_empty() && !headers.partial_iv.is_empty() {«
-                proof {
-                    assert(has_label(ms, n + 1, Label::Int(5)) && has_label(ms, n + 1, Label::Int(6)));
-                    let i5 = choose |i: int| 0 <= i < n + 1 && #[trigger] label_of(ms[i].0) == Some(Label::Int(5));
-                    let i6 = choose |i: int| 0 <= i < n + 1 && #[trigger] label_of(ms[i].0) == Some(Label::Int(6));
-                    assert(has_label(ms, ms.len() as int, Label::Int(5)));
-                    assert(has_label(ms, ms.len() as int, Label::Int(6)));
-                }»
+                proof { lemma_iv_both(headers, val0, n + 1, d); }»
                 return Err(CoseError::UnexpectedItem(
                     "IV and partial-IV specified",
                     "only one of IV and partial IV",
                 ));
             }
         }«
-        proof { assert(ms.subrange(0, ms.len() as int) =~= ms); }»
+        proof { lemma_hdr_final(headers, val0, d); }»
         Ok(headers)
     }
 }
@@ -561,7 +702,7 @@ impl Header {«
 impl AsCborValue for Header {«
     open spec fn dec_rel(value: Value, r: Result<Self>) -> bool {
         (r is Ok <==> hdr_ok(value, 0))
-        && (r matches Ok(h) ==> (value matches Value::Map(mv) && h.rest@ == rest_of(mv@)))
+        && (r matches Ok(h) ==> hdr_res(value, 0, h))
     }
     open spec fn enc_rel(self, r: Result<Value>) -> bool {
         (r is Ok <==> hdr_encodable(self)) && (r matches Ok(v) ==> vv(v) == hdr_cv(self))
@@ -834,7 +975,7 @@ impl ProtectedHeader {
     pub fn from_cbor_bstr(val: Value) ->« (r:» Result<Self>«)
         ensures
             r is Ok <==> prot_ok(val, 0),
-            r matches Ok(p) ==> (val matches Value::Bytes(d) && p.original_data == Some(d)),» {
+            r matches Ok(p) ==> prot_res(val, 0, p),» {
         Self::from_cbor_bstr_nested(val, 0)
     }
 
@@ -842,7 +983,7 @@ impl ProtectedHeader {
     pub(crate) fn from_cbor_bstr_nested(val: Value, depth: usize) ->« (r:» Result<Self>«)
         ensures
             r is Ok <==> prot_ok(val, depth as nat),
-            r matches Ok(p) ==> (val matches Value::Bytes(d) && p.original_data == Some(d)),
+            r matches Ok(p) ==> prot_res(val, depth as nat, p),
         decreases max_nest() - depth, val, 5nat» {«
         broadcast use axiom_question_mark_uses_from;»
         let data = val.try_as_bytes()?;
